@@ -19,7 +19,7 @@ ASSUMPTIONS = {
 REQUIRED = {
     "C06": ["steps_compared", "single_word_cases", "program_cases", "self_modified_executed", "brz_taken", "opcode_alias_executed", "pc_wrap_steps", "selfmod_last_reexecuted", "selfmod_body_reexecuted", "loads_into_reused_simulation"],
     "C19": ["words_round_tripped", "sources_compared", "label_refs", "array_vars", "doc_examples", "sources_with_other_memory_size", "over_wide_operands_encoded"],
-    "C20": ["boundary_snapshots_compared", "illegal_calls_checked", "calls_after_done", "first_halves", "second_halves", "single_steps"],
+    "C20": ["boundary_snapshots_compared", "illegal_calls_checked", "calls_after_done", "first_halves", "second_halves", "single_steps", "empty_program_call_strings"],
 }
 
 
@@ -604,6 +604,10 @@ def run_shard(spec, res):
     elif k == "halves":
         for it in range(spec["n"]):
             case = gen_selfmod_case(rng) if rng.random() < 0.2 else gen_prog_case(rng)
+            if rng.random() < 0.06:
+                # done before any instruction runs: every call is a no-op
+                case = {"text": rng.choice(["", "# nothing", ".data\nv: .word 3, 4", "\n\n"]), "pokes": {}, "acc": 0, "max_steps": 5}
+                res.count("empty_program_call_strings")
             case["kind"] = "halves"
             case["calls"] = gen_calls(rng, rng.randint(4, 60))
             guarded(run_case, prop, case, res)
